@@ -20,6 +20,13 @@ def _real_worker(case):
         m = C.build_model(case["content"], rng)
     except Exception as e:  # noqa: BLE001
         return [{"err": ["build:" + type(e).__name__]}] * len(case["queries"])
+    if case.get("pre_edit"):
+        # mutators applied through the public API BEFORE anything is asked; model and oracle get the content
+        # these edits amount to (`effective_content`)
+        try:
+            apply_edit(m, case["pre_edit"])
+        except Exception as e:  # noqa: BLE001
+            return [{"err": ["pre_edit:" + type(e).__name__]}] * len(case["queries"])
     out = []
     for q in case["queries"]:
         out.append(C.run_query(m, q))
@@ -56,6 +63,10 @@ def apply_edit(m, edit):
             m.update_reaction(name, fn=C._fn(payload))
         elif op == "update_reaction_st":
             m.update_reaction(name, stoichiometry={c: C._coef(cj) for c, cj in payload})
+        elif op == "make_variable_static":
+            m.make_variable_static(name)
+        elif op == "make_parameter_dynamic":
+            m.make_parameter_dynamic(name)
         elif op == "update_data":
             import pandas as pd
 
@@ -70,10 +81,17 @@ def apply_edit(m, edit):
             raise ValueError(op)
 
 
+def effective_content(case):
+    """the content the declared one amounts to after the `pre_edit` mutators"""
+    if not case.get("pre_edit"):
+        return case["content"]
+    return edited_content({"content": case["content"], "edit": case["pre_edit"]})
+
+
 def edited_content(case):
     import copy
 
-    c = copy.deepcopy(case["content"])
+    c = copy.deepcopy(effective_content(case))
     for op, name, payload in case["edit"]:
         if op in ("update_parameter", "update_parameters", "scale_parameter"):
             for kv in c["pars"]:
@@ -83,6 +101,20 @@ def edited_content(case):
             for kv in c["vars"]:
                 if kv[0] == name:
                     kv[1] = {"v": payload}
+        elif op == "make_variable_static":
+            # the variable leaves every stoichiometry and comes back as a parameter with the same (plain or
+            # assignment-defined) value
+            val = next(v for k, v in c["vars"] if k == name)
+            c["vars"] = [kv for kv in c["vars"] if kv[0] != name]
+            for _, r in c["rxns"]:
+                r["st"] = [e for e in r["st"] if e[0] != name]
+            for _, su in c["surs"]:
+                su["st"] = [[f, [e for e in st if e[0] != name]] for f, st in su["st"]]
+            c["pars"] = c["pars"] + [[name, val]]
+        elif op == "make_parameter_dynamic":
+            val = next(v for k, v in c["pars"] if k == name)
+            c["pars"] = [kv for kv in c["pars"] if kv[0] != name]
+            c["vars"] = c["vars"] + [[name, val]]
         elif op == "update_data":
             for kv in c.get("data", []):
                 if kv[0] == name:
@@ -161,7 +193,7 @@ def gen_edit(rng, content, n=(1, 3)):
 
 def _spec(case):
     out = []
-    for content in [case["content"]] + ([edited_content(case)] if case.get("edit") else []):
+    for content in [effective_content(case)] + ([edited_content(case)] if case.get("edit") else []):
         sp = C.Spec(content)
         for q in case["queries"]:
             try:
@@ -213,7 +245,7 @@ def evaluate(cases, use_driver=True):
     if use_driver:
         reqs, owner = [], []
         for i, c in enumerate(cases):
-            reqs.append({"op": "core", "content": c["content"], "queries": c["queries"]})
+            reqs.append({"op": "core", "content": effective_content(c), "queries": c["queries"]})
             owner.append(i)
             if c.get("edit"):
                 reqs.append({"op": "core", "content": edited_content(c), "queries": c["queries"]})
@@ -271,7 +303,13 @@ def standard_queries(rng, content, n_states=2, flags=False):
 def well_posed(case) -> bool:
     """the queries still talk about the content: states name exactly the variables, a per-variable
     stoichiometry query names a variable some stoichiometry mentions (shrinking must not leave that domain)"""
-    c = case["content"]
+    c0 = case["content"]
+    for op, name, _ in case.get("pre_edit") or []:
+        if op == "make_variable_static" and name not in [k for k, _ in c0.get("vars", [])]:
+            return False
+        if op == "make_parameter_dynamic" and name not in [k for k, _ in c0.get("pars", [])]:
+            return False
+    c = effective_content(case)
     vnames = [k for k, _ in c.get("vars", [])]
     touched = set(C.Spec(c).touched_vars())
     for q in case["queries"]:
